@@ -1,10 +1,12 @@
 -- all property theorem modules
+import HbsLms.Props.C01
 import HbsLms.Props.C03
 import HbsLms.Props.C04
 import HbsLms.Props.C05
 import HbsLms.Props.C06
 import HbsLms.Props.C08
 import HbsLms.Props.C09
+import HbsLms.Props.C10
 import HbsLms.Props.C12
 import HbsLms.Props.C13
 import HbsLms.Props.C15
